@@ -97,7 +97,7 @@ func compareSign(c *drv.Ctx, idx int64, seed [48]byte, msg []byte, label string)
 
 type corpusEntry struct {
 	Seed string `json:"seed"`
-	Msg  string `json:"msg"`
+	Msg  string `json:"msg,omitempty"`
 	Kind string `json:"kind"`
 }
 
@@ -121,6 +121,69 @@ func loadCorpus() []corpusEntry {
 		}
 	}
 	return out
+}
+
+func loadKeyCorpus() []corpusEntry {
+	f, err := os.Open("/verif/corpus/c07-keys.jsonl")
+	if err != nil {
+		return nil
+	}
+	defer f.Close()
+	var out []corpusEntry
+	sc := bufio.NewScanner(f)
+	for sc.Scan() {
+		var e corpusEntry
+		if json.Unmarshal(sc.Bytes(), &e) == nil && e.Seed != "" {
+			out = append(out, e)
+		}
+	}
+	return out
+}
+
+// checkKey: library key pair for seed byte-equal to the specification's; one signature compared too.
+// wantKind (if not empty) must be among the boundary kinds the model reports for this seed.
+func checkKey(c *drv.Ctx, i int64, seed [48]byte, wantKind string) []string {
+	ref := refdil.KeyGenFromWalletSeed(seed[:])
+	lib, err := dilithium.NewDilithiumFromSeed(seed)
+	c.Eval(1)
+	if err != nil {
+		c.Fail(i, "keygen-error", map[string]any{"seed": hex.EncodeToString(seed[:])})
+		return nil
+	}
+	kinds := ref.KeyBoundaries()
+	pk, sk := lib.GetPK(), lib.GetSK()
+	if !bytes.Equal(pk[:], ref.PK) {
+		c.Fail(i, "public-key-differs-from-specification", map[string]any{"seed": hex.EncodeToString(seed[:]), "boundaries": kinds})
+	}
+	if !bytes.Equal(sk[:], ref.SK) {
+		d := 0
+		for ; d < len(sk) && sk[d] == ref.SK[d]; d++ {
+		}
+		c.Fail(i, "secret-key-differs-from-specification", map[string]any{"seed": hex.EncodeToString(seed[:]), "first_differing_byte": d, "boundaries": kinds})
+	}
+	if wantKind != "" {
+		msg := []byte("keygen corpus message")
+		r := ref.Sign(msg, refdil.Skip{})
+		sg, _ := lib.Sign(msg)
+		if !bytes.Equal(sg[:], r.Sig) || !dilithium.Verify(msg, sg, &pk) {
+			c.Fail(i, "signature-of-boundary-key-differs-or-does-not-verify", map[string]any{"seed": hex.EncodeToString(seed[:]), "boundaries": kinds})
+		}
+		ok := false
+		for _, kd := range kinds {
+			if kd == wantKind {
+				ok = true
+			}
+		}
+		if ok {
+			c.Nontrivial(1)
+			c.Count("keycorpus:"+wantKind, 1)
+		} else {
+			c.Warn(fmt.Sprintf("key corpus entry %d no longer classified as %s by the model", i, wantKind))
+		}
+		c.Outcome(wantKind)
+		c.Sample(map[string]any{"seed": hex.EncodeToString(seed[:]), "kind": wantKind})
+	}
+	return kinds
 }
 
 func sha(b []byte) string { s := sha256.Sum256(b); return hex.EncodeToString(s[:]) }
@@ -246,6 +309,44 @@ func main() {
 					c.Count("hits:"+kind, 1)
 				}
 				c.Count("iterations", int64(len(p)))
+			}
+			c.Outcome("searched")
+		}})
+	// key-generation boundaries
+	keyCorpus := loadKeyCorpus()
+	ck.Domains = append(ck.Domains, &drv.Domain{Name: "keygen-corpus", Size: int64(len(keyCorpus)) + 1, Chunk: 1,
+		Desc: "committed seeds on which key generation meets a boundary according to the specification model (a coefficient of A*s1+s2 leaving [0,q) before reduction; a Power2Round tie, t0 = +4096; t = 0 / q-1): pk and sk byte-equal to the model, and a signature of the key verifies and equals the model's",
+		Run: func(c *drv.Ctx, lo, hi int64) {
+			for i := lo; i < hi; i++ {
+				c.At(i)
+				if i == int64(len(keyCorpus)) {
+					c.Outcome("sentinel")
+					continue
+				}
+				e := keyCorpus[i]
+				sb, _ := hex.DecodeString(e.Seed)
+				var seed [48]byte
+				copy(seed[:], sb)
+				checkKey(c, i, seed, e.Kind)
+			}
+		}})
+	ck.Domains = append(ck.Domains, &drv.Domain{Name: "keygen-search", Tier: "t", Size: 24000, Chunk: 20,
+		Desc: "counter-space search over 24000 seeds 'verif-c07-key-<i>': every key pair compared with the specification; key-generation boundary hits counted (exported as corpus when VERIF_KEYCORPUS_OUT is set)",
+		Run: func(c *drv.Ctx, lo, hi int64) {
+			for i := lo; i < hi; i++ {
+				c.At(i)
+				var seed [48]byte
+				h := sha256.Sum256([]byte(fmt.Sprintf("verif-c07-key-%d", i)))
+				copy(seed[:], h[:])
+				copy(seed[32:], h[:16])
+				kinds := checkKey(c, i, seed, "")
+				for _, kd := range kinds {
+					c.Count("hits:"+kd, 1)
+					if kd == "t-wrap" || int(i)%97 == 0 {
+						e, _ := json.Marshal(corpusEntry{Seed: hex.EncodeToString(seed[:]), Kind: kd})
+						c.SetAdd("keycorpus", string(e))
+					}
+				}
 			}
 			c.Outcome("searched")
 		}})
@@ -436,7 +537,7 @@ func main() {
 		}})
 	ck.Finish = func(cov map[string]any, m map[string]*drv.DomStats) {
 		all := map[string]bool{}
-		var corpusOut []string
+		var corpusOut, keyCorpusOut []string
 		for _, d := range m {
 			for k := range d.Sets["exits"] {
 				all[k] = true
@@ -445,6 +546,10 @@ func main() {
 				corpusOut = append(corpusOut, k)
 			}
 			delete(d.Sets, "corpus")
+			for k := range d.Sets["keycorpus"] {
+				keyCorpusOut = append(keyCorpusOut, k)
+			}
+			delete(d.Sets, "keycorpus")
 		}
 		missing := []string{}
 		for _, e := range []string{"accept", "z", "r0", "hint"} {
@@ -458,6 +563,10 @@ func main() {
 		if len(missing) > 0 {
 			cov["exhaustive"] = false
 			fmt.Println("warning: rejection-loop exits not covered in this run:", missing)
+		}
+		if p := os.Getenv("VERIF_KEYCORPUS_OUT"); p != "" {
+			sort.Strings(keyCorpusOut)
+			os.WriteFile(p, []byte(strings.Join(keyCorpusOut, "\n")+"\n"), 0o644)
 		}
 		if p := os.Getenv("VERIF_CORPUS_OUT"); p != "" {
 			sort.Strings(corpusOut)
